@@ -89,6 +89,13 @@ func (f *Frame) execCall(v ssa.Value, c *ssa.CallCommon, st *State) {
 	root.callSeq++
 	site := root.callSeq
 
+	// process termination: the path ends here (like a panic)
+	if name == "os.Exit" || name == "log.Fatal" || name == "log.Fatalf" || name == "log.Fatalln" {
+		f.panics = append(f.panics, st.pc)
+		st.pc = "false"
+		f.setResult(v, sig, f.freshResults(sig, st, "exit"))
+		return
+	}
 	if con, ok := vc.db.Contracts[name]; ok && name != "" {
 		// a function under verification may call itself: its own contract is used
 		res := f.applyContract(con, callee, sig, invoke, args, argTypes, st, site)
